@@ -236,6 +236,12 @@ def _parse_composition(
         # through `repr` or serialization.
         return AllOf(element, default=default)
     if not isinstance(default, NotPassed):
+        if not isinstance(
+            getattr(element, "default", NotPassed()), NotPassed
+        ):
+            # The only remaining member declares a default of its own:
+            # keep it, rather than overwriting it with the outer one.
+            return AllOf(element, default=default)
         element.default = default
     return element
 
